@@ -162,6 +162,56 @@ func c14(x *ctx) {
 				}
 			}
 		}
+		// user-defined callees that collect keyword arguments in a double-splat parameter (alone, after a
+		// positional, after a declared keyword): the collected hash, a lookup in it and the result of the
+		// call are printed, and the result is used in an expression that produces a diagnostic
+		splatVals := []string{"1", "\"s\"", "1.5"}
+		maxS := 3
+		if thorough {
+			maxS = 4
+		}
+		shapes := []struct{ name, params, pos string }{
+			{"splat", "**opts", ""},
+			{"pos+splat", "p0, **opts", "1, "},
+			{"kw+splat", "k0:, **opts", ""},
+		}
+		for K := 2; K <= maxS; K++ {
+			nv := 1
+			for i := 0; i < K; i++ {
+				nv *= len(splatVals)
+			}
+			perms := gen.Permutations(K)
+			for _, sh := range shapes {
+				def := "def m(" + sh.params + ")\n  dbtp opts\n  opts[:k1]\nend\n"
+				for sv := 0; sv < nv; sv++ {
+					sup := make([]string, K)
+					v := sv
+					for i := 0; i < K; i++ {
+						sup[i] = fmt.Sprintf("k%d: %s", i, splatVals[v%len(splatVals)])
+						v /= len(splatVals)
+					}
+					nCalls++
+					mk := func(perm []int) string {
+						var as []string
+						for _, j := range perm {
+							as = append(as, sup[j])
+						}
+						return def + "r = m(" + sh.pos + strings.Join(as, ", ") + ")\ndbtp r\nq = 1 + r\n"
+					}
+					base := &engine.Case{Cfg: "core", Files: map[string]string{"t.rb": mk(perms[0])}, Argv: []string{"t.rb", "-i"}}
+					bkey := fmt.Sprintf("splat|%s|%d|%d", sh.name, K, sv)
+					shape := sh.name
+					for _, perm := range perms[1:] {
+						emit(&mItem{baseKey: bkey, base: base,
+							variant: &engine.Case{Cfg: "core", Files: map[string]string{"t.rb": mk(perm)}, Argv: []string{"t.rb", "-i"}},
+							sig: func(b, v string) string {
+								return fmt.Sprintf("kwperm:user-%s:K=%d:%s", shape, K, diffClass(b, v))
+							},
+							desc: fmt.Sprintf("keyword order %v of call %q to def m(%s)", perm, sup, sh.params)})
+					}
+				}
+			}
+		}
 	}, &mOpts{cfgFiles: cfgFiles})
 	r.Bounds = map[string]any{"max_keywords": maxK, "definitions": nDefs, "calls": nCalls, "values": "absent|Integer|String per key, optional unknown key, 0-1 positional",
 		"K>=4": "2 parameter kinds, every third value vector", "K=5": "every fourth kind vector"}
